@@ -8,6 +8,6 @@ mkdir -p target work evidence
 ln -sfn "$REPO" harness/sut
 [ -f harness/Cargo.lock ] || cp "$REPO/Cargo.lock" harness/Cargo.lock
 cargo build --manifest-path harness/Cargo.toml --target-dir target/harness
-cargo build --manifest-path "$REPO/Cargo.toml" -p sfs-cli --bin sfs --target-dir target/cli
+CARGO_PROFILE_DEV_OPT_LEVEL=2 CARGO_PROFILE_DEV_DEBUG=0 cargo build --manifest-path "$REPO/Cargo.toml" -p sfs-cli --bin sfs --target-dir target/cli
 VERIF_DIR="$(pwd)" VERIF_SFS_BIN="$(pwd)/target/cli/debug/sfs" target/harness/debug/sfsverif selftest
 echo "setup ok"
